@@ -681,6 +681,17 @@ class _ClassBuilder:
         self._base_names = {a.name for a in base_attrs}
         self._base_attr_map = base_map
         self._attr_names = tuple(a.name for a in attrs)
+        if not slots:
+            # A field that is redefined in a dict class (this one or one in
+            # between) still lives in the slot of the slotted ancestor that
+            # declares it: the slot descriptor shadows the instance dict.
+            for base_cls in reversed(cls.__mro__[1:-1]):
+                base_slots = base_cls.__dict__.get("__slots__", ())
+                if isinstance(base_slots, str):
+                    base_slots = (base_slots,)
+                for name in base_slots:
+                    if name in self._attr_names:
+                        base_map[name] = base_cls
         self._slots = slots
         self._frozen = frozen
         self._weakref_slot = weakref_slot
